@@ -49,6 +49,15 @@ def make_jobs(tier, seed, scale):
     # that call a 10-argument helper (so the frame has a call area): every parameter must arrive
     for _ in range(ncc * 2):
         jobs.append(("cc", ["--arch", "x64exec", "--seed", sd(), "--count", str(max(1, int(ccnt * scale // 2)))]))
+    # ... and callee-saved registers of Compiler-generated functions (drv_framecc --mode pres): every convention incl. light-call,
+    # register pressure at the boundary of the caller-saved set, loops/diamonds/fixed-register instructions, invokes of callees of
+    # other conventions; scanned on all architectures, executed through a register-image trampoline on the host
+    nsc, scnt, nex, ecnt = (2, 6000, 4, 2500) if tier == "quick" else (8, 40000, 16, 15000)
+    for arch in ("x64", "x86", "a64"):
+        for _ in range(nsc):
+            jobs.append(("cc", ["--mode", "pres", "--arch", arch, "--seed", sd(), "--count", str(max(1, int(scnt * scale)))]))
+    for _ in range(nex):
+        jobs.append(("cc", ["--mode", "pres", "--arch", "x64exec", "--seed", sd(), "--count", str(max(1, int(ecnt * scale)))]))
     return jobs
 
 
@@ -93,11 +102,13 @@ def run(tier, args):
             try:
                 d = json.loads(line)
             except ValueError:
-                continue
+                raise common.HarnessError("driver %s %s printed an undecodable record: %s..." % (fl, argv, line[:200]))
             if d.get("t") == "a64":
                 recs.append(d)
             elif "violations" in d or "harness_error" in d:
                 summary = d
+        if fl == "plain" and summary and "a64_emitted" in summary and len(recs) != summary["a64_emitted"]:
+            raise common.HarnessError("driver emitted %d AArch64 frames but %d records reached the interpreter" % (summary["a64_emitted"], len(recs)))
         a64res = judge_a64(recs) if fl == "plain" else []
         return fl, argv, rc, summary, err, a64res
 
@@ -113,6 +124,10 @@ def run(tier, args):
     vio_convs = {}
 
     cc_tot = {}
+    pres = {}          # arch -> summed counters of the callee-saved workload
+    pres_conv, pres_refusals, pres_samples = {}, {}, []
+    entry_align = {}
+    a64_sp16 = a64_sp_moved = 0
 
     def add(dst, src):
         for k, v in src.items():
@@ -127,9 +142,29 @@ def run(tier, args):
             continue
         if res is None or "harness_error" in res:
             raise common.HarnessError("driver %s %s rc=%s: %s %s" % (fl, argv, rc, res, err[-400:]))
+        if fl == "cc" and res.get("pres"):
+            for v in res["violations"]:
+                chk.violation(v["key"], "%s [%d programs]" % (v["what"], v["count"]), {"argv": v["spec"].split(), "flavour": "cc"})
+            for k, n in res["refusals"].items():
+                # a legal program that finalize() refuses has no frame at all (and silently drops out of everything judged here)
+                chk.violation("cc-refused:" + k, "Compiler refuses a legal function (%s) [%d programs]; first: %s" % (k, n, res["refusal_specs"].get(k, "?")),
+                              {"argv": res["refusal_specs"].get(k, "").split(), "flavour": "cc"})
+            add(pres_refusals, res["refusals"])
+            pa = pres.setdefault(res["arch"], {})
+            for k, v in res.items():
+                if isinstance(v, int) and k != "pres":
+                    pa[k] = pa.get(k, 0) + v
+            add(pres_conv, res["by_conv"])
+            classes.update(res["classes"])
+            for sm in res["samples"]:
+                if len(pres_samples) < 4:
+                    pres_samples.append(sm)
+            continue
         if fl == "cc":
             for v in res["violations"]:
                 chk.violation(v["key"], "%s [%d programs]" % (v["what"], v["count"]), {"argv": v["spec"].split(), "flavour": "cc"})
+            for k in ("stack_addr_checked", "slot_align_checked"):
+                cc_tot[k] = cc_tot.get(k, 0) + res.get(k, 0)
             for k in ("programs", "invokes", "finalize_errors", "with_locals", "big_before_small", "executed"):
                 cc_tot[k] = cc_tot.get(k, 0) + res[k]
             cc_tot["max_arg_stack_" + res["arch"]] = max(cc_tot.get("max_arg_stack_" + res["arch"], 0), res["max_arg_stack"])
@@ -146,6 +181,7 @@ def run(tier, args):
         add(by_engine, res["by_engine"])
         add(by_conv, res["by_conv"])
         add(rejects, res["rejects"])
+        add(entry_align, res.get("by_entry_align", {}))
         classes.update(res["classes"])   # 64-bit hashes of the class tuples
         for s in res.get("class_examples", []):
             if len(class_examples) < 8:
@@ -162,6 +198,8 @@ def run(tier, args):
                     continue
             else:
                 a64_conclusive += 1
+                a64_sp16 += bool(rec.get("_sp16_checked"))
+                a64_sp_moved += bool(rec.get("_sp_moved"))
                 classes.add(rec["cls"])
                 if len(samples) < 6 and a64_conclusive % 401 == 7:
                     samples.append(rec["spec"] + " => " + rec["frame"])
@@ -170,7 +208,39 @@ def run(tier, args):
                 vio_convs.setdefault(key, set()).add(rec["conv"] + ("/fp" if rec["fp"] else ""))
                 chk.violation(key, "%s | %s | case %s" % (text, rec["frame"], rec["spec"]), {"argv": ["--case", rec["spec"]], "flavour": "plain"})
     by_engine["a64-symbolic"] = a64_conclusive
-    executed = tot["executed"] + a64_conclusive
+    pres_programs = sum(v.get("programs", 0) - v.get("finalize_errors", 0) for v in pres.values())
+    by_engine["compiler-callee-saved-scan"] = pres_programs
+    by_engine["compiler-callee-saved-x64-native"] = pres.get("x64exec", {}).get("executed", 0)
+    executed = tot["executed"] + a64_conclusive + pres_programs
+
+    # every new dimension must have observed something, else the run says nothing about it (skipped for replays of one case)
+    # (a run that already witnessed a counterexample reports that: floors only qualify a silent run)
+    if not args.replay and not chk.violations:
+        def need(cond, what):
+            if not cond:
+                raise common.HarnessError("C07: dimension observed nothing: " + what)
+        for arch in ("x64", "x86", "a64", "x64exec"):
+            pa = pres.get(arch, {})
+            need(pa.get("programs", 0) - pa.get("finalize_errors", 0) > 0, "callee-saved workload, no finalized program on " + arch)
+            for k in ("insts_scanned", "funcs_writing_preserved", "preserved_regs_written", "preserved_written_only_by_copies", "preserved_clobbered_only_by_callee",
+                      "invokes", "cross_conv_invokes", "weaker_callee_invokes", "loops", "diamonds", "at_pressure_boundary", "slot_align_checked"):
+                need(pa.get(k, 0) > 0, "%s = 0 on %s" % (k, arch))
+            if arch != "a64":
+                for k in ("fixed_reg_ops", "wide_vec_funcs", "slot_align_over_natural"):
+                    need(pa.get(k, 0) > 0, "%s = 0 on %s" % (k, arch))
+            need(pa.get("rw_unknown", 0) * 50 <= pa.get("insts_scanned", 0), "InstAPI::query_rw_info refused more than 2%% of the instructions on %s" % arch)
+        pe = pres["x64exec"]
+        for k in ("executed", "regs_compared", "stack_addr_checked", "stack_addr_over_natural", "helper_calls"):
+            need(pe.get(k, 0) > 0, "%s = 0 (x64exec)" % k)
+        need(pe.get("timeouts", 0) == pe.get("timeouts_dup_kept", 0) and (pe.get("timeouts", 0) + pe.get("signals", 0)) * 4 <= pe["executed"],
+             "executed functions timed out / crashed too often to say anything (timeouts=%s signals=%s of %s)" % (pe.get("timeouts"), pe.get("signals"), pe.get("executed")))
+        for cvn in ("x64:sysv", "x64:win64", "x64:vectorcall", "x64:light2", "x64:light3", "x64:light4", "x64exec:sysv", "x64exec:win64", "x64exec:vectorcall", "x64exec:light2",
+                    "x64exec:light3", "x64exec:light4", "x86:cdecl", "x86:stdcall", "x86:fastcall", "x86:regparm3", "x86:light2", "x86:light3", "x86:light4",
+                    "a64:aapcs64", "a64:aapcs64/apple", "a64:light2", "a64:light3", "a64:light4"):
+            need(pres_conv.get(cvn, 0) > 0, "no callee-saved program for convention " + cvn)
+        need(cc_tot.get("stack_addr_checked", 0) > 0 and cc_tot.get("slot_align_checked", 0) > 0, "requested stack-slot alignment of multi-invoke / many-parameter programs")
+        need(a64_sp16 > 0 and a64_sp_moved > 0, "AArch64 16-byte SP rule (no frame moved SP)")
+        need(any(k.startswith("x64:abi:16") for k in entry_align) and any(k.startswith("x86:abi:4") for k in entry_align), "entry SP alignment taken from the ABI table")
     for k, cv in vio_convs.items():
         chk.note("%s seen under conventions: %s" % (k, ", ".join(sorted(cv))))
 
@@ -178,7 +248,10 @@ def run(tier, args):
         "evaluations": executed,
         "distinct_nontrivial": len(classes),
         "rule": "one evaluation = one finalized FuncFrame whose prolog + monitor body + epilog was executed (x86-64 native, x86-32 through the far-call "
-                "gate) or symbolically interpreted to completion (AArch64); distinct = distinct tuple (arch, effective convention incl. custom preserved "
+                "gate) or symbolically interpreted to completion (AArch64), or one Compiler-generated function whose finalized instruction stream was scanned "
+                "for writes of callee-saved registers (and, on the host, executed through a register-image trampoline); distinct = distinct tuple (callee-saved "
+                "workload: arch, convention, preserved FP, vector mode, live GP/vector counts, loops, diamonds, fixed-register ops, invokes, weaker callee, "
+                "requested stack alignment) resp. distinct tuple (arch, effective convention incl. custom preserved "
                 "sets, preserved FP, dynamic alignment, explicit sa register kind, SSE/AVX/AVX-512 x aligned/unaligned vector saves, which non-GP groups are "
                 "saved, dirty-mask class per group {0,1,2,many,all}, local size class/alignment, call size class/alignment, has-calls); every frame has "
                 "a prolog, body and epilog, so every executed tuple is non-trivial",
@@ -199,6 +272,13 @@ def run(tier, args):
         "asan_ubsan_nonexecuting_frames": asan_frames,
         "exhaustive": False,
         "compiler_derived_frames": cc_tot,
+        "compiler_callee_saved": pres,
+        "compiler_callee_saved_programs_per_convention": pres_conv,
+        "compiler_callee_saved_refusals": pres_refusals,
+        "compiler_callee_saved_samples": pres_samples,
+        "entry_sp_alignment_source": entry_align,
+        "a64_frames_checked_for_16_byte_sp": a64_sp16,
+        "a64_frames_that_move_sp": a64_sp_moved,
         "jobs": len(jobs),
     })
     chk.assumptions += [
@@ -213,6 +293,15 @@ def run(tier, args):
         "AArch64 frames are judged symbolically on llvm-mc 14 disassembly (no CPU/emulator): entry SP assumed 16-byte aligned only; unknown "
         "mnemonics make a case inconclusive",
         "SP alignment is demanded only when the frame declares a local/call area, calls or non-GP saves (finalize() aligns only then)",
-        "frames for which finalize/emit_prolog/emit_epilog return an error are counted as rejected, not judged",
+        "every generated frame / program is legal: a finalize/emit_prolog/emit_epilog/Compiler::finalize error is reported as <arch>:refused:<stage>:<error>:<family> resp. "
+        "cc-refused:<arch>:finalize:<error>:<family>",
+        "entry SP alignment of executed x86 frames comes from the ABI documents (x86-64: 16 at the call, i386: 4), not from FuncFrame::natural_stack_alignment(); "
+        "light-call conventions have no document and use CallConv's own value",
+        "AArch64: SP must be a multiple of 16 inside the body of every frame that stores through SP or moves it (AAPCS64 6.4.5.1), promised or not",
+        "callee-saved workload, scan oracle: register writes are taken from InstAPI::query_rw_info on the finalized nodes (its correctness is C12's business) plus the "
+        "clobber set of each invoked callee's CallConv; the epilog (behind the exit label) is not scanned, its loads are the restores; preserved sets are the ABI "
+        "documents' for ABI conventions and CallConv's own for light-call; functions that use AVX call FuncFrame::set_avx_enabled() as documented",
+        "callee-saved workload, exec oracle: XMM registers are compared in their low 128 bits (all the Microsoft ABI preserves); callees are C functions "
+        "(SysV / ms_abi) that write junk to every register their convention lets them clobber, and a 3-instruction stub for the light-call conventions",
     ]
     return chk.finish()
